@@ -16,9 +16,12 @@ import (
 )
 
 type c15Case struct {
-	Kind string `json:"kind"` // tree | typed | prop | response
-	Doc  string `json:"doc"`
+	Kind string `json:"kind"` // tree | typed | prop | response | reuse
+	Doc  string `json:"doc,omitempty"`
 	Type string `json:"type,omitempty"` // typed: name of the typed element
+	// reuse: documents captured in sequence into one variable, and how
+	Docs    []string `json:"docs,omitempty"`
+	Variant string   `json:"variant,omitempty"`
 }
 
 type c15Witness struct {
@@ -616,13 +619,19 @@ func c15Run(c *fw.Ctx) {
 		exec(c, c15Case{Kind: "tree", Doc: d}, nil)
 		c.Observe("universe", "fixed documents (run by every shard)", 1)
 	}
+	for _, cs := range fixedReuse {
+		execReuse(c, cs, nil)
+	}
 	n := c.Pick(20000, 1000000)
 	for i := 0; i < n; i++ {
 		if !c.Mine(i) {
 			continue
 		}
 		r := c.Rand("c15", i)
-		switch k := r.Intn(20); {
+		switch k := r.Intn(22); {
+		case k >= 20:
+			cs, trees := genReuse(r)
+			execReuse(c, cs, trees)
 		case k < 11:
 			t := genTree(r)
 			exec(c, c15Case{Kind: "tree", Doc: string(renderDoc(r, t))}, t)
@@ -660,7 +669,12 @@ func init() {
 		Run: c15Run,
 		Replay: func(c *fw.Ctx, w json.RawMessage) {
 			var cs c15Case
-			if json.Unmarshal(w, &cs) == nil && cs.Doc != "" {
+			if json.Unmarshal(w, &cs) != nil {
+				return
+			}
+			if cs.Kind == "reuse" {
+				execReuse(c, cs, nil)
+			} else if cs.Doc != "" {
 				exec(c, cs, nil)
 			}
 		},
@@ -670,6 +684,8 @@ func init() {
 			"strict harness reader and must denote the generated tree. Each document is captured as internal.RawXMLValue (xml.Unmarshal, Decoder.Decode, every child through an ',any' field), " +
 			"then XMLName(), TokenReader() and xml.Marshal are observed; outputs are re-read with encoding/xml's namespace-translating tokenizer and compared as namespace-expanded trees. " +
 			"Typed documents for every exported element type of package internal and mirrors of the caldav/carddav property shapes: raw.Decode vs xml.Unmarshal; Prop.Get / Prop.Decode / Response.DecodeProp vs the property element decoded on its own. " +
+			"Reuse sequences: 2 or 3 documents captured one after the other into ONE variable (xml.Unmarshal, Decoder.Decode, DecodeElement, a struct field, a single ',any' field of a wrapper decoded repeatedly), a value copy kept after each capture " +
+			"(assignment, slice append, pointer dereference) with the next document having fewer, as many and more children; every kept copy is observed at copy time and again at the end (token stream, Marshal output, Decode results must not change). " +
 			"distinct_nontrivial counts distinct (case kind, typed element or child count, set of namespace/lexical features present, depth).",
 		Assumptions: []string{
 			"namespace names contain ':' (URIs): a namespace name equal to an in-scope prefix would be translated a second time by encoding/xml's token decoder",
